@@ -2,6 +2,7 @@ package main
 
 import (
 	"fmt"
+	"go/constant"
 	"go/types"
 	"sort"
 	"strings"
@@ -275,7 +276,7 @@ func (fc *FuncCtx) atAsserts(c *ssa.CallCommon, args []TV, st *State, reach stri
 		match := false
 		switch r.Kind {
 		case "call":
-			match = r.Target == key && (r.Site < 0 || r.Site == site)
+			match = r.Target == key && (r.Site < 0 || r.Site == site) && whereMatches(r, c)
 		case "effect":
 			for _, ef := range effects {
 				if ef == r.Target {
@@ -311,6 +312,25 @@ func (fc *FuncCtx) atAsserts(c *ssa.CallCommon, args []TV, st *State, reach stri
 		fc.curEnv = nil
 	}
 	return sets
+}
+
+// whereMatches: the optional `where argN is "literal"` filter of an at-rule (argument numbering as in
+// the rule's clause: arg0 is the receiver of an interface method call).
+func whereMatches(r AtRule, c *ssa.CallCommon) bool {
+	if r.WhereArg < 0 {
+		return true
+	}
+	k := r.WhereArg
+	if c.IsInvoke() {
+		k--
+	}
+	if k < 0 || k >= len(c.Args) {
+		return false
+	}
+	if cst, ok := c.Args[k].(*ssa.Const); ok && cst.Value != nil && cst.Value.Kind() == constant.String {
+		return constant.StringVal(cst.Value) == r.WhereLit
+	}
+	return false
 }
 
 // runGhostSets executes the `at call ... set g = expr` updates of the call just
@@ -1499,7 +1519,7 @@ func (fc *FuncCtx) loopMods(li *loopInfo) {
 			}
 			for b := range li.body {
 				for _, in := range b.Instrs {
-					if ci, ok := in.(ssa.CallInstruction); ok && r.Kind == "call" && fc.siteKey(ci.Common()) == r.Target {
+					if ci, ok := in.(ssa.CallInstruction); ok && r.Kind == "call" && fc.siteKey(ci.Common()) == r.Target && whereMatches(r, ci.Common()) {
 						li.mods["G."+r.Set] = true
 					}
 				}
